@@ -145,7 +145,7 @@ def generate(ctx, fx, fxpath):
         groups[k] = out
         if k == 2:
             ctx.cov["tempting_strata"] = len(names)
-    caps = {0: 10 ** 9, 1: 250, 2: 700, 3: 150} if quick else {0: 10 ** 9, 1: 6000, 2: 16000, 3: 6000}
+    caps = {0: 10 ** 9, 1: 250, 2: 700, 3: 150} if quick else {0: 10 ** 9, 1: 6000, 2: 12000, 3: 4000}
     sel = []
     for k in sorted(groups):
         sel += groups[k][:caps[k]]
@@ -252,8 +252,9 @@ def run(ctx):
         ctx.sample(b)
     trace, ev = judge(ctx, behs, fxpath)
     if ctx.cov.get("real_panics"):
-        ctx.note("the real verifier PANICKED on %d forged headers (declared threshold above the online chamber stake: p > 1 in "
-                 "choose()); a panic is not an acceptance, so it is outside C01, but it is a remotely triggerable crash" % ctx.cov["real_panics"])
+        ctx.note("SIDE FINDING: the real verifier PANICKED on %d forged headers (%s); a panic is not an acceptance, so it is outside the "
+                 "statement of C01, but it is a remotely triggerable crash (witness: findings/C01_x_verifier_panics.json)"
+                 % (ctx.cov["real_panics"], "; ".join(ctx.cov.get("panic_messages", []))))
     if not ctx.quick:
         selftest(ctx, trace, fxpath)
     if dv and not ctx.violations:
